@@ -6,6 +6,7 @@ import GdModel.Driver.Disk
 import GdModel.Driver.Index
 import GdModel.Driver.Restructure
 import GdModel.Driver.Names
+import GdModel.Driver.Scope
 open GdModel.Driver
 
 structure St where
@@ -26,6 +27,9 @@ def step (st : St) (line : String) : St × String :=
   | "names" :: rest =>
     let (t, o) := handleNames st.names rest
     ({ st with names := t }, o)
+  | "scope" :: rest => (st, handleScope rest)
+  | "scopespec" :: rest => (st, handleScopeSpec rest)
+  | "alias" :: rest => (st, handleAlias rest)
   | "reset" :: _ => ({ st with db := [] }, "-")
   | "open" :: _ => (st, "open e=0")
   | "get" :: rest =>
